@@ -155,7 +155,9 @@ def _c17(tier):
     q = tier == 'quick'
     return {
         'runs': [('fault', {'max_points': 45 if q else None,
-                            'pairs': 0 if q else 12}, 260 if q else 4000),
+                            'pairs': 0 if q else 12}, 230 if q else 3600),
+                 ('fault', {'max_points': 45 if q else None,
+                            'variant': 'tree'}, 40 if q else 600),
                  ('sync_fault', {'pairs': 0 if q else 1}, 24 if q else 300)],
         'level': 'fault_enumeration',
         'rule': FAULT_RULE + ' quick samples at most 45 (ordinal, kind) '
@@ -172,11 +174,14 @@ def _c18(tier):
     q = tier == 'quick'
     return {
         'runs': [('crash', {'max_points': 40 if q else None},
-                  300 if q else 5000)],
+                  260 if q else 4500),
+                 ('crash', {'max_points': 40 if q else None,
+                            'variant': 'tree'}, 80 if q else 1200)],
         'level': 'fault_enumeration',
         'rule': FAULT_RULE.replace('(ordinal, fault kind)',
                                    'crash point') +
-        ' Crash points: before every statement, before and after every '
+        ' A second corpus (variant tree) builds provider forests and moves, '
+        'detaches or deletes subtrees. Crash points: before every statement, before and after every '
         'commit. The request thread is frozen for ever at the crash point, '
         'its connections are rolled back and closed; the surviving state is '
         'judged, then the service is restarted and probed.',
